@@ -78,6 +78,11 @@ func Verify(stump Stump, delHashes []Hash, proof Proof) ([]int, error) {
 			"hashes for those targets", len(proof.Targets), len(delHashes))
 	}
 
+	err := checkNoEmptyHashes(delHashes, proof)
+	if err != nil {
+		return nil, err
+	}
+
 	_, rootCandidates, err := calculateHashes(stump.NumLeaves, delHashes, proof)
 	if err != nil {
 		return nil, err
